@@ -599,4 +599,221 @@ Proof.
   - cbn. constructor.
 Qed.
 
+
+(* ================= C18 (sender): unacknowledged mode ================= *)
+(* in unacknowledged mode the phase SFinished (ACK of Finished pending) is never entered *)
+Definition SU (s : sstate) : Prop := cfg_mode (s_cfg s) = Unacked /\ s_phase s <> SFinished.
+Lemma SU_ext (s s' : sstate) : SU s -> s_cfg s' = s_cfg s -> s_phase s' = s_phase s -> SU s'.
+Proof. unfold SU. intros (A & B) E1 E2. rewrite E1, E2. auto. Qed.
+Lemma SU_phase p (s s' : sstate) : SU s -> s_cfg s' = s_cfg s -> s_phase s' = p -> p <> SFinished -> SU s'.
+Proof. unfold SU. intros (A & B) E1 E2 E3. rewrite E1, E2. auto. Qed.
+Ltac su_leaf :=
+  lazymatch goal with
+  | |- SU ?t => let b := strip_s t in
+      first [ eapply (SU_ext b); [ | reflexivity | reflexivity ]
+            | eapply (SU_phase _ b); [ | reflexivity | reflexivity | discriminate ] ]
+  end.
+Lemma SU_shutdown now s : SU s -> SU (s_shutdown now s).
+Proof. intros H. unfold s_shutdown. su_leaf. exact H. Qed.
+Lemma SU_abandon now s : SU s -> SU (s_abandon now s).
+Proof. intros H. unfold s_abandon. apply SU_shutdown. su_leaf. exact H. Qed.
+Lemma SU_suspend now s : SU s -> SU (s_suspend now s).
+Proof. intros H. unfold s_suspend. su_leaf. exact H. Qed.
+Lemma SU_set_eof_flag b s : SU s -> SU (set_eof_flag b s).
+Proof. intros H. unfold set_eof_flag. destruct (s_eof s) as [[e f]|]; [su_leaf|]; exact H. Qed.
+Lemma SU_prepare_eof fl s : SU s -> SU (prepare_eof fl s).
+Proof.
+  intros H. unfold Send.prepare_eof, Send.get_checksum.
+  destruct (s_cksum s); cbn [fst snd]; [su_leaf; exact H|].
+  destruct (s_is_file_transfer s); cbn [fst snd]; [|su_leaf; exact H].
+  destruct (md_ck (s_meta s)); su_leaf; exact H.
+Qed.
+Lemma SU_cancel_ now c s : SU s -> SU (s_cancel_ now c s).
+Proof.
+  intros H. unfold Send.s_cancel_. apply SU_prepare_eof.
+  eapply (SU_phase SCancelled s); [exact H | reflexivity | reflexivity | discriminate].
+Qed.
+Lemma SU_handle_fault now c s : SU s -> SU (s_handle_fault now c s).
+Proof.
+  intros H. unfold Send.s_handle_fault.
+  assert (H1 : SU (semit_ind (IFault c (s_sent (set_s_cond c s))) (set_s_cond c s))) by (su_leaf; exact H).
+  destruct (handler _ c); [apply SU_cancel_ | apply SU_suspend | | apply SU_abandon]; exact H1.
+Qed.
+Lemma SU_handle_timeout now s : SU s -> SU (s_handle_timeout now s).
+Proof.
+  intros H. unfold Send.s_handle_timeout, c_limit_reached, c_timeout_occurred.
+  destruct (s_phase s) eqn:Ep; try exact H; cbn [fst snd].
+  - set (s1 := supd_inact (fun _ => c_update now (t_inact (s_timer s))) s).
+    assert (H1 : SU s1) by (unfold s1; su_leaf; exact H).
+    assert (H2 : SU (if c_count (c_update now (t_inact (s_timer s))) =? c_max (c_update now (t_inact (s_timer s)))
+                     then s_handle_fault now InactivityDetected s1 else s1)).
+    { destruct (_ =? _); [apply SU_handle_fault|]; exact H1. }
+    clearbody s1. remember (if _ =? _ then _ else s1) as s2 eqn:E2. clear E2 H1.
+    set (s3 := supd_ack (fun _ => c_update now (t_ack (s_timer s2))) s2).
+    assert (H3 : SU s3) by (unfold s3; su_leaf; exact H2).
+    destruct (c_occurred _); [|exact H3].
+    destruct (_ =? _); [apply SU_handle_fault | apply SU_set_eof_flag]; exact H3.
+  - set (s1 := supd_inact (fun _ => c_update now (t_inact (s_timer s))) s).
+    assert (H1 : SU s1) by (unfold s1; su_leaf; exact H).
+    assert (H2 : SU (if c_count (c_update now (t_inact (s_timer s))) =? c_max (c_update now (t_inact (s_timer s)))
+                     then s_abandon now s1 else s1)).
+    { destruct (_ =? _); [apply SU_abandon|]; exact H1. }
+    clearbody s1. remember (if _ =? _ then _ else s1) as s2 eqn:E2. clear E2 H1.
+    set (s3 := supd_ack (fun _ => c_update now (t_ack (s_timer s2))) s2).
+    assert (H3 : SU s3) by (unfold s3; su_leaf; exact H2).
+    destruct (c_occurred _); [|exact H3].
+    destruct (_ =? _); [apply SU_abandon | apply SU_set_eof_flag]; exact H3.
+Qed.
+Lemma SU_process_pdu now p s : SU s -> SU (fst (s_process_pdu now p s)).
+Proof.
+  intros H. unfold Send.s_process_pdu.
+  set (s0 := if sphase_eqb (s_phase s) SendEof && negb (ssuspended s) then supd_inact (c_restart now) s else s).
+  assert (H0 : SU s0) by (unfold s0; destruct (_ && _); [su_leaf|]; exact H). clearbody s0. clear H.
+  destruct H0 as (A & B). rewrite A. assert (H0 : SU s0) by (split; assumption).
+  destruct p; cbn [fst]; try exact H0.
+  destruct (md_closure (s_meta s0)); cbn [fst]; [|exact H0]. apply SU_shutdown. su_leaf. exact H0.
+Qed.
+Lemma SU_send_missing_data now s : SU s -> SU (fst (send_missing_data now s)).
+Proof.
+  intros H. unfold Send.send_missing_data. destruct (s_naks s) as [|[a b] t]; [exact H|].
+  destruct (65535 <? b - a); cbn [fst]; [su_leaf; exact H|].
+  destruct ((a =? 0) && (b - a =? 0)); cbn [fst]; unfold Send.send_metadata, Send.send_file_segment; su_leaf; exact H.
+Qed.
+Lemma SU_send_pdu now s : SU s -> SU (fst (s_send_pdu now s)).
+Proof.
+  intros H. unfold Send.s_send_pdu.
+  destruct (is_some (s_prompt s)); cbn [fst].
+  { unfold Send.send_prompt. destruct (s_prompt s); [su_leaf|]; exact H. }
+  destruct (s_phase s) eqn:Ep.
+  - unfold Send.send_metadata. destruct (_ && _); cbn [fst].
+    + eapply (SU_phase SendData s); [exact H | reflexivity | reflexivity | discriminate].
+    + eapply (SU_phase SendEof (prepare_eof None (semit_pdu (PMetadata (s_meta s)) s)));
+        [apply SU_prepare_eof; su_leaf; exact H | reflexivity | reflexivity | discriminate].
+  - assert (H1 : SU (fst (if negb (is_nil (s_naks s)) then send_missing_data now s
+                               else (send_file_segment (s_pos s) (cfg_seg (s_cfg s)) s, ROk)))).
+    { destruct (negb _); [apply SU_send_missing_data; exact H|]. cbn [fst]. unfold Send.send_file_segment. su_leaf. exact H. }
+    destruct (if negb (is_nil (s_naks s)) then _ else _) as [s1 r]. cbn [fst] in H1.
+    destruct r; cbn [fst]; try exact H1.
+    destruct (_ =? _); cbn [fst]; [|exact H1].
+    eapply (SU_phase SendEof (prepare_eof None s1)); [apply SU_prepare_eof; exact H1 | reflexivity | reflexivity | discriminate].
+  - destruct (negb _); [apply SU_send_missing_data; exact H|].
+    assert (H1 : SU (send_eof now s)).
+    { unfold Send.send_eof. destruct (s_eof s) as [[e [|]]|]; try exact H. apply SU_set_eof_flag. su_leaf. exact H. }
+    set (s1 := send_eof now s) in *. clearbody s1.
+    assert (H2 : SU (if s_eof_ind s1 then set_s_eof_ind false (semit_ind IEoFSent s1) else s1)).
+    { destruct (s_eof_ind s1); [su_leaf|]; exact H1. }
+    remember (if s_eof_ind s1 then _ else s1) as s2 eqn:E2. clear E2 H1.
+    destruct (cfg_mode (s_cfg s2)); cbn [fst]; [exact H2|].
+    destruct (md_closure (s_meta s2)); cbn [fst]; [exact H2|].
+    apply SU_shutdown. su_leaf. exact H2.
+  - cbn [fst]. unfold Send.send_eof. destruct (s_eof s) as [[e [|]]|]; try exact H. apply SU_set_eof_flag. su_leaf. exact H.
+  - destruct H as (_ & B). contradiction.
+Qed.
+Theorem SU_sstep now o s : SU s -> SU (fst (sstep now o s)).
+Proof.
+  intros H. unfold Send.sstep.
+  assert (H0 : SU (set_s_out [] s)) by (su_leaf; exact H).
+  destruct o; cbn [fst].
+  - apply SU_process_pdu; exact H0.
+  - destruct (s_has_pdu_to_send _); [apply SU_send_pdu|]; exact H0.
+  - destruct (s_until_timeout now _) as [[|?]|]; [apply SU_handle_timeout| |]; exact H0.
+  - apply SU_cancel_; exact H0.
+  - apply SU_suspend; exact H0.
+  - unfold s_resume. destruct (s_phase _); su_leaf; exact H0.
+  - unfold s_send_report. su_leaf. exact H0.
+  - apply SU_shutdown; exact H0.
+  - su_leaf. exact H0.
+Qed.
+Lemma SU_init now cfg m file : cfg_mode cfg = Unacked -> SU (s_new now cfg m file).
+Proof. intros H. unfold SU, s_new. cbn. split; [exact H|discriminate]. Qed.
+
+(* what the sender may emit in unacknowledged mode: Metadata, file data, EOF (and a Prompt) *)
+Definition oneway_pdu (o : out) : Prop :=
+  match o with
+  | OPdu p => match o_payload p with
+              | PMetadata _ | PFileData _ _ | PEof _ | PPrompt _ => True
+              | _ => False
+              end
+  | OInd _ => True
+  end.
+Theorem sender_oneway now s : SU s -> Forall oneway_pdu (s_out s) -> Forall oneway_pdu (s_out (fst (s_send_pdu now s))).
+Proof.
+  intros (A & B) Ho. unfold Send.s_send_pdu.
+  destruct (is_some (s_prompt s)); cbn [fst].
+  { unfold Send.send_prompt. destruct (s_prompt s); cbn; [constructor; [exact I|]|]; exact Ho. }
+  destruct (s_phase s) eqn:Ep; try contradiction.
+  - unfold Send.send_metadata. destruct (_ && _); cbn [fst].
+    + cbn. constructor; [exact I|exact Ho].
+    + destruct (prepare_eof_fields None (semit_pdu (PMetadata (s_meta s)) s)) as (_ & _ & _ & _ & _ & F & _).
+      cbn [s_out set_s_phase]. rewrite F. cbn. constructor; [exact I|exact Ho].
+  - assert (H1 : Forall oneway_pdu (s_out (fst (if negb (is_nil (s_naks s)) then send_missing_data now s
+                               else (send_file_segment (s_pos s) (cfg_seg (s_cfg s)) s, ROk))))).
+    { destruct (negb _).
+      - unfold Send.send_missing_data. destruct (s_naks s) as [|[a b] t]; [exact Ho|].
+        destruct (65535 <? b - a); cbn [fst]; [exact Ho|].
+        destruct ((a =? 0) && (b - a =? 0)); cbn; constructor; try exact I; exact Ho.
+      - cbn. constructor; [exact I|exact Ho]. }
+    destruct (if negb (is_nil (s_naks s)) then _ else _) as [s1 r]. cbn [fst] in H1.
+    destruct r; cbn [fst]; try exact H1.
+    destruct (_ =? _); cbn [fst]; [|exact H1].
+    destruct (prepare_eof_fields None s1) as (_ & _ & _ & _ & _ & F & _). cbn [s_out set_s_phase]. rewrite F. exact H1.
+  - destruct (negb _).
+    + unfold Send.send_missing_data. destruct (s_naks s) as [|[a b] t]; [exact Ho|].
+      destruct (65535 <? b - a); cbn [fst]; [exact Ho|].
+      destruct ((a =? 0) && (b - a =? 0)); cbn; constructor; try exact I; exact Ho.
+    + assert (H1 : Forall oneway_pdu (s_out (send_eof now s))).
+      { unfold Send.send_eof, set_eof_flag. destruct (s_eof s) as [[e [|]]|] eqn:Ee; try exact Ho.
+        cbn [s_eof semit_pdu set_s_out supd_ack set_s_timer]. rewrite Ee. cbn. constructor; [exact I|exact Ho]. }
+      set (s1 := send_eof now s) in *. clearbody s1.
+      set (s2 := if s_eof_ind s1 then set_s_eof_ind false (semit_ind IEoFSent s1) else s1).
+      assert (H2 : Forall oneway_pdu (s_out s2)).
+      { unfold s2. destruct (s_eof_ind s1); cbn; [constructor; [exact I|]|]; exact H1. }
+      clearbody s2. destruct (cfg_mode (s_cfg s2)); cbn [fst]; [exact H2|].
+      destruct (md_closure (s_meta s2)); cbn [fst]; [exact H2|]. cbn. constructor; [exact I|exact H2].
+  - cbn [fst]. unfold Send.send_eof, set_eof_flag. destruct (s_eof s) as [[e [|]]|] eqn:Ee; try exact Ho.
+    cbn [s_eof semit_pdu set_s_out supd_ack set_s_timer]. rewrite Ee. cbn. constructor; [exact I|exact Ho].
+Qed.
+
+(* closure: after the (first) EOF the sender stays open iff closure was requested *)
+Theorem sender_eof_closure now s e : cfg_mode (s_cfg s) = Unacked -> s_phase s = SendEof ->
+  s_prompt s = None -> s_naks s = [] -> s_eof s = Some (e, true) ->
+  let s' := fst (s_send_pdu now s) in
+  In (OPdu (mkOpdu true (payload_len (s_cfg s) resp_len req_len (PEof e)) (cfg_dst (s_cfg s)) (PEof e))) (s_out s') /\
+  (md_closure (s_meta s) = true -> s_state s' = s_state s) /\
+  (md_closure (s_meta s) = false -> s_state s' = TTerminated).
+Proof.
+  intros Hm Hp Hpr Hn He. cbn zeta. unfold Send.s_send_pdu. rewrite Hpr, Hp, Hn. cbn [is_some is_nil negb].
+  unfold Send.send_eof. rewrite He. unfold set_eof_flag.
+  cbn [s_eof semit_pdu set_s_out supd_ack set_s_timer]. rewrite He.
+  match goal with |- context [s_eof_ind ?x] => set (s1 := x) end.
+  assert (F1 : s_cfg s1 = s_cfg s) by reflexivity.
+  assert (F2 : s_meta s1 = s_meta s) by reflexivity.
+  assert (F3 : s_state s1 = s_state s) by reflexivity.
+  assert (F4 : In (OPdu (mkOpdu true (payload_len (s_cfg s) resp_len req_len (PEof e)) (cfg_dst (s_cfg s)) (PEof e))) (s_out s1))
+    by (left; reflexivity).
+  clearbody s1.
+  set (s2 := if s_eof_ind s1 then set_s_eof_ind false (semit_ind IEoFSent s1) else s1).
+  assert (G1 : s_cfg s2 = s_cfg s) by (unfold s2; destruct (s_eof_ind s1); exact F1).
+  assert (G2 : s_meta s2 = s_meta s) by (unfold s2; destruct (s_eof_ind s1); exact F2).
+  assert (G3 : s_state s2 = s_state s) by (unfold s2; destruct (s_eof_ind s1); exact F3).
+  assert (G4 : In (OPdu (mkOpdu true (payload_len (s_cfg s) resp_len req_len (PEof e)) (cfg_dst (s_cfg s)) (PEof e))) (s_out s2))
+    by (unfold s2; destruct (s_eof_ind s1); [right|]; exact F4).
+  clearbody s2. rewrite G1, Hm, G2.
+  destruct (md_closure (s_meta s)); cbn [fst]; splits; auto; try discriminate; try (intros; congruence).
+  cbn. right. exact G4.
+Qed.
+
+(* ... and the Finished PDU ends it, its outcome reported to the user *)
+Theorem sender_finished_unacked now s f : cfg_mode (s_cfg s) = Unacked -> md_closure (s_meta s) = true ->
+  let s' := fst (s_process_pdu now (PFinished f) s) in
+  s_state s' = TTerminated /\
+  exists r, In (OInd (IFinished r (fin_fs f) (fin_dc f) (fin_resps f))) (s_out s') /\ trp_cond r = fin_cond f.
+Proof.
+  intros Hm Hc. cbn zeta. unfold Send.s_process_pdu.
+  set (s0 := if sphase_eqb (s_phase s) SendEof && negb (ssuspended s) then supd_inact (c_restart now) s else s).
+  assert (E1 : cfg_mode (s_cfg s0) = Unacked) by (unfold s0; destruct (_ && _); exact Hm).
+  assert (E2 : md_closure (s_meta s0) = true) by (unfold s0; destruct (_ && _); exact Hc).
+  rewrite E1, E2. cbn. split; [reflexivity|]. eexists. split; [left; reflexivity|reflexivity].
+Qed.
+
 End SendP.
